@@ -440,6 +440,18 @@ func report(groups []*group, res *lib.Result) {
 						res.Disagree(corrNext, c, it.model, it.impl)
 					}
 				}
+				if it.asked2 {
+					res.Traces++
+					res.Hit("composed:parse-then-next")
+					want := it.impl
+					if strings.HasPrefix(want, "at ") {
+						want += "000000000"
+					}
+					if !agree(it.model2, want) {
+						res.Hit("disagree:pnext")
+						res.Disagree(corrPNext, c, it.model2, want)
+					}
+				}
 				tag := zc + "/" + it.class
 				if it.sp.parsed {
 					tag += "/parsed"
